@@ -4,38 +4,52 @@
 (* one REPLAY line (input + token list) and compared with the implementation's scanner by the harness.          *)
 EXTENDS Lexer, TLC, Json, FiniteSets
 
-CONSTANTS Alphabet, N
+CONSTANTS Alphabet, N,
+          Prefixes      \* set of texts one of which starts the input: contexts in which the scanner's state matters
+PrefixesNone == {<<>>}
+\* 'x.asm ' | 'asm ' | 'x.end ' | 'x.begin ' | '&asm ' | 'asm end ' | 'x.\nasm ' | 'a. asm ' | 'x.Asm\n' | '{c}.asm ' | 'asm x.end '
+PrefixesCtx == {<<120, 46, 97, 115, 109, 32>>,
+                <<97, 115, 109, 32>>,
+                <<120, 46, 101, 110, 100, 32>>,
+                <<120, 46, 98, 101, 103, 105, 110, 32>>,
+                <<38, 97, 115, 109, 32>>,
+                <<97, 115, 109, 32, 101, 110, 100, 32>>,
+                <<120, 46, 10, 97, 115, 109, 32>>,
+                <<97, 46, 32, 97, 115, 109, 32>>,
+                <<120, 46, 65, 115, 109, 10>>,
+                <<123, 99, 125, 46, 97, 115, 109, 32>>,
+                <<97, 115, 109, 32, 120, 46, 101, 110, 100, 32>>}
 
-VARIABLES input, st, toks, done, phase
-vars == <<input, st, toks, done, phase>>
+VARIABLES input, st, toks, done, phase, plen
+vars == <<input, st, toks, done, phase, plen>>
 
-Init == /\ input = <<>>
+Init == /\ input \in Prefixes /\ plen = Len(input)
         /\ phase = "gen"
         /\ st = InitState
         /\ toks = <<>>
         /\ done = FALSE
 
 \* the text grows one code point at a time (no set of all texts is ever built) ...
-Extend == /\ phase = "gen" /\ Len(input) < N
+Extend == /\ phase = "gen" /\ Len(input) < plen + N
           /\ \E c \in Alphabet : input' = Append(input, c)
-          /\ UNCHANGED <<st, toks, done, phase>>
+          /\ UNCHANGED <<st, toks, done, phase, plen>>
 
 \* ... and at any length the scanner may be started on it
 Start == /\ phase = "gen"
          /\ phase' = "lex"
-         /\ UNCHANGED <<input, st, toks, done>>
+         /\ UNCHANGED <<input, st, toks, done, plen>>
 
 LexToken == /\ phase = "lex" /\ ~done /\ ~AtEof(input, st)
             /\ LET n == NextToken(input, st) IN
                /\ st' = n.st
                /\ toks' = Append(toks, n.tok)
-            /\ UNCHANGED <<input, done, phase>>
+            /\ UNCHANGED <<input, done, phase, plen>>
 
 LexEof == /\ phase = "lex" /\ ~done /\ AtEof(input, st)
           /\ toks' = Append(toks, EofToken(input, st))
           /\ st' = [st EXCEPT !.pos = Len(input) + 1]
           /\ done' = TRUE
-          /\ UNCHANGED <<input, phase>>
+          /\ UNCHANGED <<input, phase, plen>>
 
 Next == Extend \/ Start \/ LexToken \/ LexEof
 Spec == Init /\ [][Next]_vars
